@@ -193,20 +193,24 @@ class FieldGroupCut:
 
     def enter(self, loc):
         self.entered += 1
-        if "depth" not in loc or loc.get("parents") is not self.parents:
-            raise EngineUnsupported("check_field_group's loop no longer walks `depth` over `parents`: the cut-point contract must be re-stated")
+        from vfkit import rewrite
+        if not any(v is self.parents for v in loc.values()):
+            raise EngineUnsupported("check_field_group's loop no longer walks over `parents`: the cut-point contract must be re-stated")
+        # the loop's counter, whatever it is called: the only integer the loop assigns
+        names = getattr(self, "rebindable", ()) or ("depth",)
+        self.v_depth = rewrite.state_variable(loc, names, lambda v: isinstance(v, (SymInt, int)) and not isinstance(v, bool), "the number of ancestors still to look at")
         if self.mode == "init":
-            raise PathStop([("C20-F/FieldGroup/any-chain/while/invariant-holds-on-entry", self.inv(loc["depth"]))])
+            raise PathStop([("C20-F/FieldGroup/any-chain/while/invariant-holds-on-entry", self.inv(loc[self.v_depth]))])
         cx = sym.ctx()
         d = SymInt(name="depth_at_loop_head")
         cx.assume(self.inv(d))
         self.pre = d.t
-        return {"depth": d}
+        return {self.v_depth: d}
 
     def step(self, loc):
         if self.mode != "havoc":
             return
-        d = loc["depth"]
+        d = loc[self.v_depth]
         dt = d.t if isinstance(d, SymInt) else z3.IntVal(d)
         raise PathStop([("C20-F/FieldGroup/any-chain/while/invariant-preserved", self.inv(d)),
                         ("C20-F/FieldGroup/any-chain/while/decreases", z3.And(dt >= 0, dt < self.pre))])
